@@ -544,10 +544,10 @@ def _record_objects(scenario):
         if fn in ("raw_ensure", "pre_process"):
             spec = dict(spec, delay=delay)
         first = build_record(spec)
-        reference = digest(canon(first))      # canon() calls no methods: caches stay as built
+        reference = canon(first)      # canon() calls no methods: caches stay as built
         for _ in range(4):
             second = build_record(spec)
-            if digest(canon(second)) == reference:
+            if canon(second) == reference:
                 break
         else:
             unstable.append(i)
